@@ -170,9 +170,9 @@ COMP_TRUSTED = [
 def composite_unit(prop, Unit, Entry, tier='quick'):
     ents = []
     import os
-    h64 = os.environ.get('VERIF_HASH64_CLASSES', 'Mul,MultiArgFunction,FiniteSet' if tier == 'thorough' else '').split(',')
+    h64 = os.environ.get('VERIF_HASH64_CLASSES', 'Mul,MultiArgFunction,FiniteSet,Add' if tier == 'thorough' else '').split(',')
     if prop == 'C01' and h64 != ['']:
-        # thorough tier: full-width hash_t for the classes that are narrowed to 16 bits in the quick tier (validated: 340-700 s each; Add does not finish)
+        # thorough tier: full-width hash_t for the classes that are narrowed to 16 bits in the quick tier (validated: 340-700 s each, Add ~28 min)
         for cls, nm in ((10, 'Mul'), (11, 'MultiArgFunction'), (12, 'FiniteSet'), (5, 'Add')):
             if nm in h64:
                 ents.append(Entry('h_comp_c01', defines={'CLS': cls, 'CLSNAME': '"%s"' % nm}, route='B', timeout=3400, mem_gb=10, unwind=8, label='h_comp_c01_%s_hash64' % nm,
